@@ -387,6 +387,44 @@ def environment_reads(a):
         item["replay"] = replay_environment(a)
         item["reproduced"] = item["replay"].get("reproduced", False)
         a.candidates.append(item)
+    # the `colored` crate decides from CLICOLOR / CLICOLOR_FORCE / NO_COLOR / isatty whether a ColoredString's Display emits escape
+    # sequences: a ColoredString formatted through its own Display is an environment read. Allowed: console text only.
+    sites = []
+    for name, text in functions(a.mir):
+        for line in text.splitlines():
+            st_ = line.strip()
+            if st_.startswith(("let ", "debug ", "scope ", "fn ")):
+                continue
+            if COLOUR_SINK.search(st_):
+                sites.append(name)
+                break
+    sites = sorted(set(sites))
+    flagged2 = [n for n in sites if not any(re.search(fr, n) for fr, _why in COLOUR_TOLERATED)]
+    st2 = a.ob.check("environment/colour-decisions-reach-console-text-only", [], [], "true" if flagged2 else "false",
+                     f"colour decisions ({len(sites)} functions format a ColoredString through its own Display, which consults CLICOLOR / NO_COLOR / "
+                     "isatty): all of them write console text or stderr messages (single-line / summary-table / verbose-tree console reporters, "
+                     "parse-error messages); no Display impl and no structured reporter is among them"
+                     + (f" - FOUND: {'; '.join(flagged2[:4])}" if flagged2 else "") + " (site enumeration; degenerate solver part)")
+    item2 = a.ob.items[-1]
+    item2["paths"], item2["cut_by_unroll_bound"], item2["unroll"] = max(1, len(sites)), 0, 0
+    if not sites:
+        item2["status"] = "inconclusive"
+    if st2 == "refuted":
+        item2["replay"] = replay_environment(a)
+        item2["reproduced"] = item2["replay"].get("reproduced", False)
+        a.candidates.append(item2)
+
+
+COLOUR_SINK = re.compile(r"new_display::<(?:colored::)?ColoredString>|<(?:colored::)?ColoredString as (?:std::fmt::)?Display>::fmt|"
+                         r"<(?:colored::)?ColoredString as (?:std::string::)?ToString>::to_string|colored::control::")
+COLOUR_TOLERATED = [
+    (r"^evaluate_rule$", "console: verbose / print-json preamble of the single-file validate path (stdout console text)"),
+    (r"^(cfn|tf)::single_line(::<impl at [^>]*>::emit_code)?$", "console single-line reporters"),
+    (r"^pprint_clauses$", "console verbose tree"),
+    (r"^(print_partition|print_summary)$", "console summary"),
+    (r"summary_table\.rs[^>]*>::(report|report_eval)$", "console summary table"),
+    (r"validate/structured\.rs[^>]*>::evaluate(::\{closure#\d+\})?$", "stderr: parse-error message of a rules file"),
+]
 
 
 def replay_environment(a):
@@ -412,7 +450,39 @@ def replay_environment(a):
         for k, v in outs.items():
             if v[:2] != base[:2]:
                 out.append({"environment": k, "exit": v[0], "exit_under_UTC": base[0], "note": "exit code / structured output differs from the run under TZ=UTC0"})
-        return {"reproduced": bool(out), "mismatches": out, "exit_codes": {k: v[0] for k, v in outs.items()}}
+        # the same without the rule that is an error: the non-error path under the three environments
+        open(os.path.join(d, "r3.guard"), "w").write("let t1 = parse_epoch(stamp)\nrule a { %t1 == 1724198400 }\nrule c { name == \"x\" }\nrule n { name == \"y\" }\n")
+        outs3 = {}
+        for label, env in (("UTC", {"TZ": "UTC0"}), ("JST", {"TZ": "JST-9"}), ("EST", {"TZ": "EST5", "LANG": "de_DE.UTF-8", "HOME": "/nonexistent", "GUARD_X": "1"})):
+            e = dict(os.environ)
+            e.update(env)
+            pr = subprocess.run([exe, "validate", "-r", os.path.join(d, "r3.guard"), "-d", os.path.join(d, "d.json"), "--structured", "-o", "json", "--show-summary", "none"],
+                                capture_output=True, text=True, env=e, timeout=60)
+            outs3[label] = (pr.returncode, pr.stdout)
+        for k, v in outs3.items():
+            if v != outs3["UTC"]:
+                out.append({"environment": k, "rules": "r3 (no naive timestamp)", "exit": v[0], "exit_under_UTC": outs3["UTC"][0]})
+        # colour switches: structured documents are the same bytes whatever CLICOLOR_FORCE / NO_COLOR say
+        import re as _re
+        open(os.path.join(d, "t.yaml"), "w").write('- name: c1\n  input: {"stamp": "x", "naive": "y", "name": "z"}\n  expectations:\n    rules:\n      c: PASS\n      a: FAIL\n'
+                                                    '- name: c2\n  input: {"name": "x"}\n  expectations:\n    rules:\n      c: PASS\n')
+        open(os.path.join(d, "r2.guard"), "w").write('rule c { name == "x" }\nrule a { stamp exists }\n')
+        cmds = {f"validate -o {f}": [exe, "validate", "-r", os.path.join(d, "r2.guard"), "-d", os.path.join(d, "d.json"), "-d", os.path.join(d, "t.yaml"), "--structured",
+                                      "-o", f, "--show-summary", "none"] for f in ("json", "yaml", "junit", "sarif")}
+        cmds.update({f"test -o {f}": [exe, "test", "-r", os.path.join(d, "r2.guard"), "-t", os.path.join(d, "t.yaml"), "-o", f] for f in ("json", "yaml", "junit")})
+        strip = lambda t: _re.sub(r'time="[^"]*"', 'time=""', _re.sub(r'"?time"?: ?[0-9.e+-]+', "time: 0", t))
+        for label, cmd in cmds.items():
+            seen = {}
+            for envlabel, env in (("plain", {}), ("NO_COLOR=1", {"NO_COLOR": "1"}), ("CLICOLOR_FORCE=1", {"CLICOLOR_FORCE": "1"}), ("CLICOLOR=0", {"CLICOLOR": "0"})):
+                e = {k: v for k, v in os.environ.items() if k not in ("NO_COLOR", "CLICOLOR", "CLICOLOR_FORCE")}
+                e.update(env)
+                pr = subprocess.run(cmd, capture_output=True, text=True, env=e, timeout=60)
+                seen[envlabel] = (pr.returncode, strip(pr.stdout))
+            for k, v in seen.items():
+                if v != seen["plain"]:
+                    out.append({"command": label, "environment": k, "exit": v[0], "exit_plain": seen["plain"][0], "escape_bytes_in_output": "\x1b" in v[1],
+                                "note": "structured output (apart from elapsed-time fields) differs from the run without colour variables"})
+        return {"reproduced": bool(out), "mismatches": out[:4], "exit_codes": {k: v[0] for k, v in outs.items()}}
     finally:
         shutil.rmtree(d, ignore_errors=True)
 
